@@ -5,8 +5,8 @@ import (
 	"bytes"
 	"fmt"
 	"io"
-	"strings"
 	"math/big"
+	"strings"
 	"testing"
 
 	"github.com/idena-network/idena-go/blockchain/types"
